@@ -1,4 +1,409 @@
 import YncaVerif.Model.Dialogue
 /-! Helper lemmas for the L5 dialogue model (C06 barrier / bound, C07 stage barriers). -/
 namespace Ynca.L5
+
+/-! ## induction over runs -/
+
+theorem run_inv (answer : Answer) (P : D → Prop)
+    (hstep : ∀ s s' l, P s → step answer s l = some s' → P s') :
+    ∀ ls s0 s, P s0 → run answer s0 ls = some s → P s := by
+  intro ls
+  induction ls with
+  | nil => intro s0 s h0 hr; simp [run] at hr; subst hr; exact h0
+  | cons l ls ih =>
+    intro s0 s h0 hr
+    simp only [run] at hr
+    split at hr
+    · next s' hs' => exact ih s' s (hstep s0 s' l h0 hs') hr
+    · cases hr
+
+theorem reachable_induction (answer : Answer) (P : D → Prop) (h0 : P {})
+    (hstep : ∀ s s' l, P s → step answer s l = some s' → P s') :
+    ∀ s, Reachable answer s → P s := by
+  intro s ⟨ls, hr⟩
+  exact run_inv answer P hstep ls {} s h0 hr
+
+/-! ## list helpers -/
+
+theorem countP_take_le {α} (p : α → Bool) (l : List α) (k : Nat) : (l.take k).countP p ≤ l.countP p := by
+  conv => rhs; rw [← List.take_append_drop k l]
+  rw [List.countP_append]; omega
+
+/-- if the prefix of length `k` already holds every `p`-element, no element from index `k` on satisfies `p` -/
+theorem countP_take_eq_no_later {α} (p : α → Bool) (l : List α) (k j : Nat) (x : α)
+    (h : (l.take k).countP p = l.countP p) (hkj : k ≤ j) (hx : l[j]? = some x) : p x = false := by
+  have h2 : l.countP p = (l.take k).countP p + (l.drop k).countP p := by
+    conv => lhs; rw [← List.take_append_drop k l]
+    rw [List.countP_append]
+  have h0 : (l.drop k).countP p = 0 := by omega
+  rw [List.countP_eq_zero] at h0
+  have hm : x ∈ l.drop k := by
+    rw [List.mem_iff_getElem?]
+    refine ⟨j - k, ?_⟩
+    rw [List.getElem?_drop]
+    have : k + (j - k) = j := by omega
+    rw [this]; exact hx
+  have := h0 x hm
+  simpa using this
+
+/-! ## the invariants
+
+`Inv` — bookkeeping of queues, counters and `SYS:VERSION` counts, over all reachable states;
+`InvS` — how the stage and the event relate to the balance of `SYS:VERSION` queries and replies. -/
+
+structure Inv (s : D) : Prop where
+  enq : s.written.length + s.pending.length = s.enqueued
+  cons_le : s.consumed ≤ s.written.length
+  ans_len : s.ansEnd.length = s.consumed
+  proc_le : s.processed ≤ s.emitted.length
+  ans_le : ∀ e ∈ s.ansEnd, e ≤ s.emitted.length
+  ans_sorted : s.ansEnd.Pairwise (· ≤ ·)
+  vl_eq : s.vl = (s.emitted.take s.processed).countP isVersionLine
+  em_cnt : s.emitted.countP isVersionLine = (s.written.take s.consumed).countP (· == versionQuery)
+  vq_eq : (s.written ++ s.pending).countP (· == versionQuery) = s.vq
+  last_q : s.written ++ s.pending = [] ∨ ∃ pre, s.written ++ s.pending = pre ++ [versionQuery]
+  vans : ∀ i, i < s.consumed → s.written[i]? = some versionQuery →
+    ∃ e l, s.ansEnd[i]? = some e ∧ 1 ≤ e ∧ s.emitted[e - 1]? = some l ∧ isVersionLine l = true
+
+theorem inv_init : Inv {} := by
+  constructor <;> simp
+
+theorem inv_step (answer : Answer) (ha : AnswerOk answer) (s s' : D) (l : Label) (hi : Inv s)
+    (hs : step answer s l = some s') : Inv s' := by
+  obtain ⟨h1, h2, h3, h4, h5, h6, h7, h8, h9, h10, h11⟩ := hi
+  cases l with
+  | «begin» queries timeout =>
+    simp only [step] at hs
+    split at hs
+    · next hc =>
+      simp at hs; subst hs
+      have hq : List.countP (fun x => x == versionQuery) queries = 0 := by
+        rw [List.countP_eq_zero]; intro a ha; simpa using hc.2 a ha
+      constructor <;> simp only [] <;> try assumption
+      case enq => simp; omega
+      case vq_eq => simp [List.countP_append] at h9 ⊢; omega
+      case last_q => exact Or.inr ⟨s.written ++ (s.pending ++ queries), by simp⟩
+    · cases hs
+  | write =>
+    simp only [step] at hs
+    split at hs
+    · next q rest hp =>
+      simp at hs; subst hs
+      have ht : List.take s.consumed (s.written ++ [q]) = List.take s.consumed s.written :=
+        List.take_append_of_le_length h2
+      constructor <;> simp only [] <;> try assumption
+      case enq => simp [hp] at h1 ⊢; omega
+      case cons_le => simp; omega
+      case em_cnt => rw [ht]; exact h8
+      case vq_eq => simpa [hp] using h9
+      case last_q => simpa [hp] using h10
+      case vans =>
+        intro i hi hw
+        have : i < s.written.length := by omega
+        rw [List.getElem?_append_left this] at hw
+        exact h11 i hi hw
+    · cases hs
+  | consume =>
+    simp only [step] at hs
+    split at hs
+    · next hc =>
+      simp at hs; subst hs
+      generalize hq : s.written[s.consumed] = q
+      have hq' : s.written[s.consumed]? = some q := by simp [hc, hq]
+      have hcnt : List.countP isVersionLine (answer q) = if q = versionQuery then 1 else 0 := by
+        split
+        · next hv => obtain ⟨l, hl, hvl⟩ := ha.2; subst hv; simp [hl, hvl]
+        · next hv => rw [List.countP_eq_zero]; intro a ham; simp [ha.1 q hv a ham]
+      constructor <;> simp only [] <;> try assumption
+      case ans_len => simp; omega
+      case proc_le => simp; omega
+      case ans_le =>
+        intro e he
+        simp at he ⊢
+        rcases he with he | he
+        · have := h5 e he; omega
+        · omega
+      case ans_sorted =>
+        rw [List.pairwise_append]
+        refine ⟨h6, by simp, ?_⟩
+        intro a ha b hb
+        simp at hb
+        have := h5 a ha; omega
+      case vl_eq => rw [List.take_append_of_le_length h4]; exact h7
+      case em_cnt =>
+        rw [List.countP_append, List.take_add_one, List.countP_append, hq', hcnt, h8]
+        by_cases hv : q = versionQuery <;> simp [hv]
+      case vans =>
+        intro i hi hw
+        by_cases hic : i < s.consumed
+        · obtain ⟨e, l, h1', h2', h3', h4'⟩ := h11 i hic hw
+          refine ⟨e, l, ?_, h2', ?_, h4'⟩
+          · rw [List.getElem?_append_left (by omega)]; exact h1'
+          · have : e - 1 < s.emitted.length := by
+              have := (List.getElem?_eq_some_iff.mp h3').1; exact this
+            rw [List.getElem?_append_left this]; exact h3'
+        · have hie : i = s.consumed := by omega
+          subst hie
+          rw [hq'] at hw
+          have hw : q = versionQuery := by simpa using hw
+          obtain ⟨l, hl, hvl⟩ := ha.2
+          subst hw
+          refine ⟨s.emitted.length + 1, l, ?_, by omega, ?_, hvl⟩
+          · rw [← h3]; simp [hl]
+          · simp [hl]
+    · cases hs
+  | unsolicited l =>
+    simp only [step] at hs
+    split at hs
+    · cases hs
+    · next hv =>
+      simp at hs; subst hs
+      constructor <;> simp only [] <;> try assumption
+      case proc_le => simp; omega
+      case ans_le => intro e he; have := h5 e he; simp; omega
+      case vl_eq => rw [List.take_append_of_le_length h4]; exact h7
+      case em_cnt => rw [List.countP_append, h8]; simp [hv]
+      case vans =>
+        intro i hi hw
+        obtain ⟨e, l', h1', h2', h3', h4'⟩ := h11 i hi hw
+        refine ⟨e, l', h1', h2', ?_, h4'⟩
+        have : e - 1 < s.emitted.length := (List.getElem?_eq_some_iff.mp h3').1
+        rw [List.getElem?_append_left this]; exact h3'
+  | process =>
+    simp only [step] at hs
+    split at hs
+    · next hc =>
+      simp at hs; subst hs
+      constructor <;> simp only [] <;> try assumption
+      case vl_eq =>
+        rw [List.take_add_one, List.countP_append, ← h7]
+        simp [hc]
+        split <;> simp_all
+    · cases hs
+  | wake =>
+    simp only [step] at hs
+    split at hs
+    · split at hs
+      · simp at hs; subst hs; constructor <;> simp only [] <;> assumption
+      · cases hs
+    · cases hs
+  | timeout =>
+    simp only [step] at hs
+    split at hs
+    · split at hs
+      · simp at hs; subst hs; constructor <;> simp only [] <;> assumption
+      · cases hs
+    · cases hs
+  | tick d =>
+    simp only [step] at hs
+    split at hs
+    · split at hs
+      · cases hs
+      · split at hs
+        · simp at hs; subst hs; constructor <;> simp only [] <;> assumption
+        · cases hs
+    · split at hs
+      · simp at hs; subst hs; constructor <;> simp only [] <;> assumption
+      · cases hs
+
+
+theorem Inv.vl_le_vq {s : D} (hi : Inv s) : s.vl ≤ s.vq := by
+  have a := countP_take_le isVersionLine s.emitted s.processed
+  have b := countP_take_le (· == versionQuery) s.written s.consumed
+  have c := hi.vq_eq
+  rw [List.countP_append] at c
+  have d := hi.vl_eq
+  have e := hi.em_cnt
+  omega
+
+/-- stage bookkeeping -/
+structure InvS (s : D) : Prop where
+  wait_enq : ∀ f c dl, s.stage = .waiting f c dl → f + c = s.enqueued
+  bal_rest : s.stage = .idle ∨ s.stage = .ok → s.vl = s.vq
+  bal_set : ∀ f c dl, s.stage = .waiting f c dl → s.event = true → s.vl = s.vq
+  bal_unset : ∀ f c dl, s.stage = .waiting f c dl → s.event = false → s.vl + 1 = s.vq
+
+theorem invS_init : InvS {} := by
+  constructor <;> simp
+
+theorem invS_step (answer : Answer) (s s' : D) (l : Label) (hi : InvS s) (hle : s'.vl ≤ s'.vq)
+    (hs : step answer s l = some s') : InvS s' := by
+  obtain ⟨h1, h2, h3, h4⟩ := hi
+  cases l with
+  | «begin» queries timeout =>
+    simp only [step] at hs
+    split at hs
+    · next hc =>
+      simp at hs; subst hs
+      constructor <;> simp_all
+      omega
+    · cases hs
+  | write =>
+    simp only [step] at hs
+    split at hs
+    · simp at hs; subst hs; exact ⟨h1, h2, h3, h4⟩
+    · cases hs
+  | consume =>
+    simp only [step] at hs
+    split at hs
+    · simp at hs; subst hs; exact ⟨h1, h2, h3, h4⟩
+    · cases hs
+  | unsolicited l =>
+    simp only [step] at hs
+    split at hs
+    · cases hs
+    · simp at hs; subst hs; exact ⟨h1, h2, h3, h4⟩
+  | process =>
+    simp only [step] at hs
+    split at hs
+    · next hc =>
+      simp at hs; subst hs
+      simp only [] at hle
+      generalize isVersionLine s.emitted[s.processed] = b at hle ⊢
+      constructor <;> simp only []
+      case wait_enq => exact h1
+      case bal_rest =>
+        intro hst; have := h2 hst
+        cases b <;> simp at hle ⊢ <;> omega
+      case bal_set =>
+        intro f c dl hst hev
+        have h3' := h3 f c dl hst
+        have h4' := h4 f c dl hst
+        rw [hst] at hev
+        cases b <;> cases hse : s.event <;> simp [hse] at hle hev h3' h4' ⊢ <;> omega
+      case bal_unset =>
+        intro f c dl hst hev
+        have h4' := h4 f c dl hst
+        rw [hst] at hev
+        cases b <;> cases hse : s.event <;> simp [hse] at hle hev h4' ⊢ <;> omega
+    · cases hs
+  | wake =>
+    simp only [step] at hs
+    split at hs
+    · split at hs
+      · simp at hs; subst hs; constructor <;> simp_all
+      · cases hs
+    · cases hs
+  | timeout =>
+    simp only [step] at hs
+    split at hs
+    · split at hs
+      · simp at hs; subst hs; constructor <;> simp_all
+      · cases hs
+    · cases hs
+  | tick d =>
+    simp only [step] at hs
+    split at hs
+    · split at hs
+      · cases hs
+      · split at hs
+        · simp at hs; subst hs; exact ⟨h1, h2, h3, h4⟩
+        · cases hs
+    · split at hs
+      · simp at hs; subst hs; exact ⟨h1, h2, h3, h4⟩
+      · cases hs
+
+
+theorem reachable_inv (answer : Answer) (ha : AnswerOk answer) (s : D) (h : Reachable answer s) :
+    Inv s ∧ InvS s := by
+  refine reachable_induction answer (fun s => Inv s ∧ InvS s) ⟨inv_init, invS_init⟩ ?_ s h
+  intro s s' l ⟨hi, his⟩ hs
+  have hi' := inv_step answer ha s s' l hi hs
+  exact ⟨hi', invS_step answer s s' l his hi'.vl_le_vq hs⟩
+
+/-- the heart of the barrier: once every enqueued `SYS:VERSION` query has had its reply processed, the device
+    has consumed every enqueued command and the reader has processed every answer -/
+theorem barrier_core {s : D} (hi : Inv s) (hv : s.vl = s.vq) :
+    s.consumed = s.enqueued ∧ s.written.length = s.enqueued ∧ s.pending = [] ∧
+    ∀ e ∈ s.ansEnd, e ≤ s.processed := by
+  obtain ⟨h1, h2, h3, h4, h5, h6, h7, h8, h9, h10, h11⟩ := hi
+  have a := countP_take_le isVersionLine s.emitted s.processed
+  -- all = take consumed written ++ rest
+  have hall : s.written ++ s.pending = s.written.take s.consumed ++ (s.written.drop s.consumed ++ s.pending) := by
+    rw [← List.append_assoc, List.take_append_drop]
+  have hc := h9
+  rw [hall, List.countP_append] at hc
+  have hrest0 : (s.written.drop s.consumed ++ s.pending).countP (· == versionQuery) = 0 := by omega
+  have hfull : s.emitted.countP isVersionLine = (s.emitted.take s.processed).countP isVersionLine := by omega
+  have hrest : s.written.drop s.consumed ++ s.pending = [] := by
+    rcases h10 with h10 | ⟨pre, hpre⟩
+    · rw [hall] at h10; simp at h10; simp [h10]
+    · cases hr : s.written.drop s.consumed ++ s.pending with
+      | nil => rfl
+      | cons x xs =>
+        exfalso
+        have hlast : (s.written.drop s.consumed ++ s.pending).getLast? = some versionQuery := by
+          have : (s.written ++ s.pending).getLast? = some versionQuery := by rw [hpre]; simp
+          rw [hall, List.getLast?_append, hr] at this
+          rw [hr]; simpa using this
+        rw [List.countP_eq_zero] at hrest0
+        have := hrest0 versionQuery (List.mem_of_getLast? hlast)
+        simp at this
+  have hp : s.pending = [] := by simp at hrest; exact hrest.2
+  have hwl : s.written.length ≤ s.consumed := by simp at hrest; exact hrest.1
+  have hce : s.consumed = s.written.length := by omega
+  refine ⟨by simp [hp] at h1; omega, by simp [hp] at h1; omega, hp, ?_⟩
+  intro e he
+  -- the last consumed command is the sync query
+  rcases h10 with h10 | ⟨pre, hpre⟩
+  · simp at h10; simp [h10.1] at h2; rw [← h3] at h2; simp at h2; simp [h2] at he
+  · rw [hp, List.append_nil] at hpre
+    have hlen : s.written.length = pre.length + 1 := by rw [hpre]; simp
+    have hw : s.written[s.consumed - 1]? = some versionQuery := by
+      rw [hpre, hce, hlen]; simp
+    obtain ⟨e', l, he1, he2, he3, he4⟩ := h11 (s.consumed - 1) (by omega) hw
+    have hle' : e' ≤ s.processed := by
+      apply Classical.byContradiction
+      intro hn
+      have := countP_take_eq_no_later isVersionLine s.emitted s.processed (e' - 1) l hfull.symm (by omega) he3
+      simp [he4] at this
+    -- sortedness: every answer ends no later than the last one
+    have hsort : e ≤ e' := by
+      rw [List.pairwise_iff_getElem] at h6
+      obtain ⟨i, hi, hei⟩ := List.mem_iff_getElem.mp he
+      have hj : s.consumed - 1 < s.ansEnd.length := by omega
+      have he'j : s.ansEnd[s.consumed - 1] = e' := by
+        have := List.getElem?_eq_some_iff.mp he1; exact this.2
+      by_cases hij : i < s.consumed - 1
+      · have := h6 i (s.consumed - 1) hi hj hij
+        rw [hei, he'j] at this; exact this
+      · have : i = s.consumed - 1 := by omega
+        subst this; rw [← hei, he'j]; exact Nat.le_refl _
+    omega
+
+theorem version_balance (answer : Answer) (ha : AnswerOk answer) (s : D) (h : Reachable answer s)
+    (hs : s.stage = .idle ∨ s.stage = .ok) : s.vl = s.vq :=
+  (reachable_inv answer ha s h).2.bal_rest hs
+
+theorem barrier (answer : Answer) (ha : AnswerOk answer) (s : D) (h : Reachable answer s) (hok : s.stage = .ok) :
+    s.consumed = s.enqueued ∧ s.written.length = s.enqueued ∧ s.pending = [] ∧
+    ∀ e ∈ s.ansEnd, e ≤ s.processed :=
+  have ⟨hi, his⟩ := reachable_inv answer ha s h
+  barrier_core hi (his.bal_rest (Or.inr hok))
+
+theorem barrier_waiting (answer : Answer) (ha : AnswerOk answer) (s : D) (h : Reachable answer s)
+    (first count dl : Nat) (hw : s.stage = .waiting first count dl) (he : s.event = true) :
+    first + count ≤ s.consumed ∧ ∀ i, i < first + count → ∃ e, s.ansEnd[i]? = some e ∧ e ≤ s.processed := by
+  have ⟨hi, his⟩ := reachable_inv answer ha s h
+  have ⟨b1, _, _, b4⟩ := barrier_core hi (his.bal_set first count dl hw he)
+  have hfc := his.wait_enq first count dl hw
+  refine ⟨by omega, ?_⟩
+  intro i hi'
+  have hlt : i < s.ansEnd.length := by rw [hi.ans_len]; omega
+  exact ⟨s.ansEnd[i], List.getElem?_eq_getElem hlt, b4 _ (List.getElem_mem hlt)⟩
+
+theorem waiting_bounded (answer : Answer) (s : D) (h : Reachable answer s) (first count dl : Nat)
+    (hw : s.stage = .waiting first count dl) : s.now ≤ dl := by
+  have := reachable_induction answer (fun s => ∀ f c dl, s.stage = .waiting f c dl → s.now ≤ dl)
+    (by simp) ?_ s h
+  · exact this first count dl hw
+  · intro s s' l hi hs
+    cases l <;> simp only [step] at hs <;> (repeat' split at hs) <;>
+      cases hs <;> intro f c dl hst <;> simp_all <;> omega
+
+theorem failed_final (answer : Answer) (s s' : D) (l : Label) (hf : s.stage = .failed)
+    (h : step answer s l = some s') : s'.stage = .failed := by
+  cases l <;> simp only [step, hf] at h <;> (repeat' split at h) <;>
+    cases h <;> simp_all
+
 end Ynca.L5
